@@ -259,7 +259,7 @@ func (c *evalCtx) eval1(e *Expr) (tval, error) {
 		default:
 			et := x.ty.Underlying().(*types.Slice).Elem()
 			sz := int64(w.sizeOf(et))
-			return tval{t: MkSlice(Elem(SPtr(x.t), Mul(lo, IntLit(sz))), Sub(hi, lo), Sub(SCap(x.t), lo)), ty: x.ty}, nil
+			return tval{t: MkSlice(ElemS(SPtr(x.t), lo, sz), Sub(hi, lo), Sub(SCap(x.t), lo)), ty: x.ty}, nil
 		}
 	case "un":
 		x, err := c.eval(e.Args[0])
@@ -431,11 +431,7 @@ func (c *evalCtx) index(x, i tval) (tval, error) {
 			return tval{t: StrAt(BStr(x.t), i.t), ty: xt.Elem()}, nil
 		}
 		sz := int64(w.sizeOf(xt.Elem()))
-		off := i.t
-		if sz != 1 {
-			off = Mul(i.t, IntLit(sz))
-		}
-		a := Elem(SPtr(x.t), off)
+		a := ElemS(SPtr(x.t), i.t, sz)
 		if isComposite(xt.Elem()) {
 			return tval{t: a, ty: xt.Elem(), addr: true}, nil
 		}
@@ -443,8 +439,7 @@ func (c *evalCtx) index(x, i tval) (tval, error) {
 	case *types.Map:
 		dom, val := fr.mapArrays(st, xt, x.t)
 		vs := w.sortOf(xt.Elem())
-		_ = dom
-		return tval{t: Ite(Select(dom, i.t, SBool), Select(val, i.t, vs), w.zero(xt.Elem())), ty: xt.Elem()}, nil
+		return tval{t: Ite(And(Neq(x.t, NilLoc), Select(dom, i.t, SBool)), Select(val, i.t, vs), w.zero(xt.Elem())), ty: xt.Elem()}, nil
 	case *types.Basic:
 		if x.t.Sort == SStr {
 			return tval{t: StrAt(x.t, i.t), ty: types.Typ[types.Uint8]}, nil
